@@ -2,3 +2,8 @@ claim("C06", "DESIGN.md 5 C06, A.3",
  "Seeded search (tens of thousands to millions of simulated runs) over loss/duplication/reorder patterns, peer reply policies, tick timings and (ACK_TIMEOUT, MAX_RETRANSMIT, NSTART) settings against the real udp/client.Conn + Session + UDPConn over a simulated network with a fake clock; every client transmission is judged against a reference retransmission model. Evidence, not proof: sampled, with replayable minimised counterexamples.",
  "Trusts: Go's testing/synctest fake clock and quiescence detection; the harness's own 150-line CoAP codec; replicated udp.Client wiring (40 lines); ticks are given the simulated wall clock. 'Not exhausted' is judged conservatively (see evidence.assumptions).",
  "deterministic simulation: seeded fault/schedule search with reference retransmission model over the write log")
+
+claim("C14", "DESIGN.md 5 C14, A.6",
+ "Seeded walks over interleavings (at critical-section granularity, via named yield points inside pkg/sync.Map and pkg/cache) of 2-3 tasks x 1-3 operations of the full API on 1-2 keys, with fake-time advances as events; each recorded history is decided by porcupine against a sequential map-with-expiry model. Sampled exploration of a small space (the quick tier already revisits most 2x2 shapes many times); evidence, not proof.",
+ "Trusts porcupine v1.3.0 and the 150-line sequential model; interleavings finer than the yield points (inside a critical section) are not explored; Range is modelled as one Visit sub-operation per callback, the sweep as one SweepKey sub-operation per removed key.",
+ "deterministic simulation: cooperative seeded scheduler over yield points + porcupine linearizability check of the recorded history")
